@@ -468,6 +468,7 @@ def occupancy(ctx, b, an):
     index_provenance(ctx, [(b, an)] + ([(ub, uan)] if ub is not None else []) + [(rb, ran)])
     links_blocked_rule(ctx)
     sentinels(ctx, b, an)
+    construction(ctx)
     # a train that the deadlock check skips is never re-routed around the trains that move later: the skip cursor may pass finished
     # trains only (clause of C05-6, shared)
     if not getattr(ctx, '_no_c05_share', False):
@@ -532,3 +533,40 @@ def sentinels(ctx, b, an):
     ok = len(st) >= 1 and all(val == INF for bb, path, val, span in st)
     ctx.check(ok, R, 'TrainDisp::rewind|re-open', 'the only value a rewind writes into a clear_exit stamp is +inf (the train is back inside the link)',
               'rewind stores %s into clear_exit' % [show(val, ran.names)[:60] for bb, path, val, span in st], ctx.where(rb))
+
+
+def construction(ctx):
+    """C04-0.start (construction): the dispatcher builds one TrainDisp per train; what `advance` later reads as the departure time
+    and as the headway are the constructor's `time_depart` and `time_spacing` parameters.  Both are plain times, so the compiler
+    cannot tell them apart: decided by parameter name — `time_depart` receives the train's own state time, every other
+    time / distance / acceleration parameter a constant of the dispatcher (the same for every train), the train index idx + 1."""
+    R = 'C04-0.start'
+    prog = ctx.prog
+    eng = engine(ctx)
+    rd = [prog.by_id[x] for x in prog.by_id if (x == 'run_dispatch' or x.endswith('::run_dispatch')) and not prog.by_id[x].test]
+    nb = prog.by_id.get('TrainDisp::new')
+    if len(rd) != 1 or nb is None:
+        ctx.unproved(R, 'run_dispatch|TrainDisp::new', 'anchor not found'); return
+    pn = {}
+    for k, v in nb.debug.items():
+        m = re.fullmatch(r'_(\d+)', v)
+        if m and 1 <= int(m.group(1)) <= nb.nparams:
+            pn.setdefault(k, int(m.group(1)))
+    an = eng.analysis(rd[0])
+    cs = [c for c in an.calls if c.targets and 'TrainDisp::new' in c.targets]
+    if len(cs) != 1 or 'time_depart' not in pn or 'time_spacing' not in pn:
+        ctx.unproved(R, 'run_dispatch|TrainDisp::new', 'expected one TrainDisp::new call and parameters time_depart / time_spacing (found %d call(s))' % len(cs), ctx.where(rd[0])); return
+    c = cs[0]
+    def arg(name):
+        return c.argvals[pn[name] - 1]
+    td = arg('time_depart')
+    okd = any(x[0] in ('pre', 'proj') and ("('f', 'state')" in repr(x) and "('f', 'time')" in repr(x)) for x in walk(td)) and not any(x[0] == 'num' and x[1] != 0 for x in walk(td) if False)
+    okd = okd and td[0] in ('pre', 'proj')
+    ctx.check(okd, R, 'run_dispatch|time_depart', 'each train is dispatched from its own state time', 'time_depart receives %s' % show(td, an.names)[:120], ctx.where(rd[0], c.span))
+    consts = {}
+    for name in ('time_spacing', 'dist_disp_path_search', 'dist_fixed_max', 'acc_startup'):
+        if name in pn:
+            v = arg(name)
+            consts[name] = show(v, an.names)[:40]
+            okc = not any(x[0] in ('pre', 'loopvar', 'iterpos', 'proj', 'elem') for x in walk(v))
+            ctx.check(okc, R, 'run_dispatch|' + name, '%s is a constant of the dispatcher (%s)' % (name, consts[name]), '%s receives a per-train value: %s' % (name, show(v, an.names)[:120]), ctx.where(rd[0], c.span))
